@@ -43,7 +43,7 @@ def run_property(mod, pid, tier, seed, only=None, jobs=0, keep=False, write_evid
     spec = mod.spec(tier, seed)
     instances = spec.get("instances", [])
     if only:
-        instances = [i for i in instances if only in i.name]
+        instances = [i for i in instances if any(o in i.name for o in only.split(','))]
     work = "/var/tmp/rqverif.%s.%d" % (pid, os.getpid())
     shutil.rmtree(work, ignore_errors=True)
     os.makedirs(work)
